@@ -31,6 +31,10 @@ Devs == {"numpydoc_embedded_unparsable",       \* wild : class/pydantic/function
          "argparse_required_gets_zero_default",\* exact: argparse gives a default-less int/float/str/Literal/List parameter its zero value
          "argparse_none_default_dropped",      \* exact: argparse drops a None default
          "argparse_bool_no_default_optional",  \* exact: argparse turns a default-less bool into Optional[bool]
+         "return_literal_default_raises",      \* exact: argparse emit of a return entry whose default is a non-string literal raises TypeError (the function emitter did too: repaired)
+         "function_return_default_mangled",    \* wild : function: a return default given as a code-quoted expression loses the return type; a None default comes back as the string '(None)'
+         "argparse_return_expr_default_requoted", \* exact: argparse (ReST): a code-quoted return default (expression, None) comes back as the repr of that string (quotes inside the string)
+         "argparse_gn_return_default_raises",  \* exact: argparse with a Google / NumPy docstring and a return default: the parser raises (KeyError 'typ' / TypeError)
          "argparse_type_collapsed"}            \* exact: argparse collapses Union/dotted/dict types (Union[int,str]->int|str, np.ndarray->str, dict->Optional[dict]=None, Optional[dict]->Optional[str])
 
 Embedded(cfg) == cfg.fmt \in {"class", "pydantic", "function"}
@@ -75,14 +79,28 @@ AsBuilt(en, cfg, i) ==
       wildGr == "google_return_mangled" \in en /\ cfg.style = "google" /\ Embedded(cfg) /\ i.ret # NoRet
       dictRaise == "class_dict_no_default_raises" \in en /\ cfg.fmt \in {"class", "pydantic"}
                    /\ \E k \in 1..n : i.params[k].typ = "dict" /\ i.params[k].def = "absent"
+      hasRetDef == i.ret # NoRet /\ i.ret.def # "absent"
+      retLit == "return_literal_default_raises" \in en /\ cfg.fmt = "argparse" /\ hasRetDef /\ i.ret.def = "int_pos"
+      fnRet == "function_return_default_mangled" \in en /\ cfg.fmt = "function" /\ hasRetDef /\ i.ret.def \in {"expr", "None"}
+      apGn == "argparse_gn_return_default_raises" \in en /\ cfg.fmt = "argparse" /\ cfg.style \in {"google", "numpydoc"} /\ hasRetDef /\ ~retLit
+      apRet == "argparse_return_expr_default_requoted" \in en /\ cfg.fmt = "argparse" /\ cfg.style = "rest" /\ hasRetDef /\ i.ret.def \in {"expr", "None"}
+      r0 == NormR(cfg, i.ret)
+      ret == IF apRet THEN [r0 EXCEPT !.def = IF i.ret.def = "expr" THEN "expr_requoted" ELSE "none_requoted"] ELSE r0
       fired == UNION {per[k][2] : k \in 1..n}
+               \cup (IF retLit THEN {"return_literal_default_raises"} ELSE {})
+               \cup (IF fnRet THEN {"function_return_default_mangled"} ELSE {})
+               \cup (IF apRet THEN {"argparse_return_expr_default_requoted"} ELSE {})
+               \cup (IF apGn THEN {"argparse_gn_return_default_raises"} ELSE {})
                \cup (IF wildNp THEN {"numpydoc_embedded_unparsable"} ELSE {})
                \cup (IF wildGr THEN {"google_return_mangled"} ELSE {})
                \cup (IF wildDot THEN {"str_default_with_dot_truncated"} ELSE {})
                \cup (IF dictRaise THEN {"class_dict_no_default_raises"} ELSE {})
-  IN [out |-> [raises |-> IF dictRaise THEN "TypeError" ELSE "no", wild |-> wildNp \/ wildGr \/ wildDot, doc |-> i.doc,
+  IN [out |-> [raises |-> IF dictRaise THEN "TypeError"
+                          ELSE IF retLit THEN "TypeError"
+                          ELSE IF apGn THEN (IF cfg.style = "google" THEN "KeyError" ELSE "TypeError") ELSE "no",
+               wild |-> wildNp \/ wildGr \/ wildDot \/ fnRet, doc |-> i.doc,
                params |-> [k \in 1..n |-> per[k][1]],
-               ret |-> NormR(cfg, i.ret)],
+               ret |-> ret],
       fired |-> fired]
 
 =====================================================================================
